@@ -58,6 +58,25 @@ def check(case):
         return dict(key=key, nontrivial=True, failures=fails)
     tm = histories.replay_model(version, order, history)
     compare(g, tm.text(), version, fail)
+    # a line that is refused (its second segment identifier belongs to a line that is not a segment) is not part of the document:
+    # the collections must be the same afterwards
+    segs = [tm.name_of(r) for r in tm.recs if r.rt == "S"]
+    others = [tm.name_of(r) for r in tm.recs if r.rt not in ("S", "H", "#") and tm.name_of(r)]
+    if segs and others:
+        a, x = segs[0], others[0]
+        for text in (["L\t%s\t+\t%s\t+\t*" % (a, x), "C\t%s\t-\t%s\t+\t0\t*" % (a, x)] if version == "gfa1" else
+                     ["E\t*\t%s+\t%s+\t6\t8$\t0\t2\t*" % (a, x), "G\t*\t%s-\t%s+\t5\t*" % (a, x)]):
+            try:
+                g.add_line(text)
+                break                                    # accepted (not the situation meant here): stop
+            except gfapy.Error:
+                pass
+            except Exception as e:
+                fail("refused-line-raises-%s" % type(e).__name__, text); break
+        else:
+            def fail2(kind, what):
+                fail("after-refused-line:" + kind, what)
+            compare(g, tm.text(), version, fail2)
     return dict(key=key, nontrivial=True, failures=fails, sample=histories.describe(version, order, history))
 
 
